@@ -388,6 +388,8 @@ def run_group(prop, group, tier, seed):
         return _run_isa(prop, tier, seed, Ob)
     if group == 'jit':
         return _run_jit(prop, tier, seed, Ob)
+    if group == 'jit:frame':
+        return _run_jit(prop, tier, seed, Ob, only_frame=True)
     if group.startswith('misc:'):
         from . import kani_misc
         return kani_misc.run(prop, group[5:], tier, seed, Ob)
@@ -485,7 +487,7 @@ def _run_isa(prop, tier, seed, Ob):
     return obs, info
 
 
-def _run_jit(prop, tier, seed, Ob):
+def _run_jit(prop, tier, seed, Ob, only_frame=False):
     ok, note, tinfo = gen_jit()
     info0 = {'engine': 'kani:jit', 'notes': [], 'assumptions': []}
     if not ok:
@@ -493,7 +495,7 @@ def _run_jit(prop, tier, seed, Ob):
         info0['notes'].append(note); info0['unit'] = 'kani:jit'; info0['status'] = 'template-error'
         return [o], info0
     encs = encodings() if tier == 'thorough' else jit_quick_subset(seed)
-    names = ['j_frame'] + [enc_name('j', b0, cb) for (b0, cb) in encs]
+    names = ['j_frame'] + ([] if only_frame else [enc_name('j', b0, cb) for (b0, cb) in encs])
     if os.environ.get('VERIF_ONLY'):
         names = [n for n in os.environ['VERIF_ONLY'].split(',') if n.startswith('j_')]   # experiments only
     bad = [n for n in names if not tinfo.get(n, '').startswith('ok')]
